@@ -438,6 +438,7 @@ def access_diff(fasta, excludes, tmpdir, min_gap, tag="c"):
     from cnvlib import access
     from skgenome import tabio
 
+    excludes = list(excludes or [])
     out_cli, out_api = os.path.join(tmpdir, f"{tag}.cli.bed"), os.path.join(tmpdir, f"{tag}.api.bed")
     argv = ["access", fasta, "-s", int(min_gap), "-o", out_cli]
     for x in excludes:
